@@ -11,6 +11,7 @@ package linux
 //vc:func (*State).ApplyCommands
 //vc:  requires[C11] !isCompareRun
 //vc:  invariant[C09] 1 "for _, c := range ch.routes" accepted == old(accepted) + 1 + rangeindex && -1 <= rangeindex && rangeindex < len(s.change.routes) && len(s.change.routes) == old(len(s.change.routes))
+//vc:  assert[C05] at "s.cmd(c)" @routeCommandsSentInOrder c == s.change.routes[rangeindex + 1]
 //vc:  set changesConfirmed = result == nil && accepted >= old(accepted) + len(s.change.routes) && (s.change.iptables != "" ==> accepted >= old(accepted) + len(s.change.routes) + 3)
 //vc:  ensures[C09] @nilOnlyIfAllAccepted result == nil ==> changesConfirmed
 //vc:func (*State).cmd
@@ -54,3 +55,63 @@ package linux
 //vc:maprange[C16] (*config).MergeSpoc 1 "for tName, bChains := range b.iptables" accumulate merges table tName into a.iptables[tName] only; Abort only changes the error text
 //vc:maprange[C16] (*config).MergeSpoc 2 "for cName, bChain := range bChains" accumulate merges chain cName into aChains[cName] only
 //vc:maprange[C16] normalizeIPTables 1 "for k, v := range pairs" accumulate each option value is normalised from its own value and stored under its own key
+
+// ---- C05 ----
+// Device model for the emitted route commands: devRoutes is the set of static
+// routes of the host. lineSpec(l) is the route (destination, prefix length,
+// next hop) the kernel derives from an `ip route add ...` line l;
+// applyRoute(d, c) is the route set after running command text c on a host
+// with routes d. routeLine(l) says that l is one such line.
+//vc:ghost var devRoutes set[spec]
+//vc:spec func lineSpec(l string) spec
+//vc:spec func routeLine(l string) bool
+//vc:spec func applyRoute(d set[spec], c string) set[spec]
+//vc:axiom forall d set[spec], l string :: { applyRoute(d, l) } routeLine(l) ==> applyRoute(d, l) == store(d, lineSpec(l), true)
+//vc:axiom forall d set[spec], l string :: { applyRoute(d, strings.Replace(l, "ip route add ", "ip route del ", 1)) } routeLine(l) ==> applyRoute(d, strings.Replace(l, "ip route add ", "ip route del ", 1)) == store(d, lineSpec(l), false)
+//vc:axiom forall d set[spec], x string, y string :: { applyRoute(d, x + "\n" + y) } applyRoute(d, x + "\n" + y) == applyRoute(applyRoute(d, x), y)
+//vc:spec macro routeOK(r route) bool = routeLine(r.orig) && lineSpec(r.orig) == r.spec
+
+// "The host has exactly the routes of list l" is stated without existential
+// quantifiers: every element of l is on the host, and every route on the host
+// has a witness index into l (idxA for the device list at entry, the ghost map
+// wB for the target list at exit).
+//vc:spec func idxA(s spec) int
+//vc:ghost var wB map[spec]int
+
+//vc:func diffRoutes
+//vc:  hypothesis[C05] forall k int :: { a[k] } 0 <= k && k < len(a) ==> routeOK(a[k]) && devRoutes[a[k].spec]
+//vc:  hypothesis[C05] forall k int :: { b[k] } 0 <= k && k < len(b) ==> routeOK(b[k])
+//vc:  hypothesis[C05] forall s spec :: { devRoutes[s] } devRoutes[s] ==> 0 <= idxA(s) && idxA(s) < len(a) && a[idxA(s)].spec == s
+//vc:  hypothesis[C05] !sameArray(a, b)
+//vc:  assign at "delete(aMap, r.spec)" wB = store(wB, r.spec, rangeindex + 1)
+//vc:  assign at "result = append(result, cmd)" wB = store(wB, r.spec, rangeindex + 1)
+//vc:  assign at "result = append(result, cmd)" devRoutes = applyRoute(devRoutes, arg1[0])
+//vc:  assign at "result = append(result, printDel(r))" devRoutes = applyRoute(devRoutes, arg1[0])
+//vc:  invariant[C05] 1 "for _, r := range a" @seenInMap forall k int :: { a[k] } 0 <= k && k <= rangeindex ==> (a[k].spec in aMap)
+//vc:  invariant[C05] 1 "for _, r := range a" @mapOnDevice forall s spec :: { s in aMap } (s in aMap) ==> aMap[s] && devRoutes[s]
+//vc:  invariant[C05] 1 "for _, r := range a" @deviceInMap forall s spec :: { devRoutes[s] } devRoutes[s] && idxA(s) <= rangeindex ==> (s in aMap)
+//vc:  invariant[C05] 1 "for _, r := range a" @dstMapOK forall d dst :: { d in aDstMap } (d in aDstMap) ==> routeOK(aDstMap[d])
+//vc:  invariant[C05] 1 "for _, r := range a" devRoutes == old(devRoutes)
+//vc:  invariant[C05] 1 "for _, r := range a" @targetRoutesOK forall k int :: { b[k] } 0 <= k && k < len(b) ==> routeOK(b[k])
+//vc:  invariant[C05] 2 "for _, r := range b" -1 <= rangeindex && rangeindex < len(b)
+//vc:  invariant[C05] 2 "for _, r := range b" @unmatchedOnDevice forall s spec :: { s in aMap } (s in aMap) ==> aMap[s] && devRoutes[s] && old(devRoutes)[s]
+//vc:  invariant[C05] 2 "for _, r := range b" @matchedAreTarget forall s spec :: { devRoutes[s] } devRoutes[s] && !(s in aMap) ==> 0 <= wB[s] && wB[s] <= rangeindex && b[wB[s]].spec == s
+//vc:  invariant[C05] 2 "for _, r := range b" @targetOnDevice forall k int :: { b[k] } 0 <= k && k <= rangeindex ==> devRoutes[b[k].spec] && !(b[k].spec in aMap)
+//vc:  invariant[C05] 3 "for _, r := range a" @restIsTarget forall s spec :: { devRoutes[s] } devRoutes[s] && !(s in aMap) ==> 0 <= wB[s] && wB[s] < len(b) && b[wB[s]].spec == s
+//vc:  invariant[C05] 3 "for _, r := range a" @targetStays forall k int :: { b[k] } 0 <= k && k < len(b) ==> devRoutes[b[k].spec] && !(b[k].spec in aMap)
+//vc:  invariant[C05] 3 "for _, r := range a" @unmatchedFromA forall s spec :: { s in aMap } (s in aMap) ==> aMap[s] && old(devRoutes)[s]
+//vc:  invariant[C05] 3 "for _, r := range a" @deletedSoFar forall s spec :: { s in aMap } (s in aMap) && idxA(s) <= rangeindex ==> !devRoutes[s]
+//vc:  ensures[C05] @targetRoutesOnDevice forall k int :: { b[k] } 0 <= k && k < len(b) ==> devRoutes[b[k].spec]
+//vc:  ensures[C05] @onlyTargetRoutesOnDevice forall s spec :: { devRoutes[s] } devRoutes[s] ==> 0 <= wB[s] && wB[s] < len(b) && b[wB[s]].spec == s
+
+// ---- C18 ----
+// Scope of the [APPEND] marker in an iptables (raw) file, as a state machine
+// over the input lines alone: a table header (*name) ends it, a line [APPEND]
+// starts it. Every parsed rule must carry exactly that state in its append
+// flag (MergeSpoc places the rule by this flag).
+//vc:ghost var appendSection bool
+//vc:func (*State).parseIPTables
+//vc:  init appendSection = false
+//vc:  assign at "line = strings.TrimSpace(line)" appendSection = ite(strings.TrimSpace(arg0) == "[APPEND]", true, ite(len(strings.TrimSpace(arg0)) > 0 && strings.TrimSpace(arg0)[0] == 42, false, appendSection))
+//vc:  invariant[C18] 1 "for _, line := range lines" @appendFlagFollowsMarker appendRule == appendSection
+//vc:  assert[C18] at "ch.rules = append(ch.rules," @ruleCarriesAppendState arg1[0].append == appendSection
